@@ -296,6 +296,7 @@ void sx_on_quiescent(void)
 	int i;
 
 	sx_cover("signal.quiescent");
+	sx_leak_check_unreachable();	/* C18: nothing the library allocated has been lost track of */
 	sx_assert(senders_done == nsenders, "C10.sender-blocked");
 	for (i = 0; i < nI; i++)
 		if (I[i].registered)
@@ -344,7 +345,10 @@ void sx_main(void)
 	for (i = 0; i < nI; i++) {
 		I[i].id = i;
 		I[i].flags = flagset[sx_choose((int)sx_opt("nflags", 4))];
-		I[i].signum = ((int)sx_opt("twosigs", 0) && i == nI - 1) ? SIGB : SIGA;
+		if ((int)sx_opt("twosigs", 0) == 2)
+			I[i].signum = sx_choose(2) ? SIGB : SIGA;	/* any split of the interests over two signals */
+		else
+			I[i].signum = ((int)sx_opt("twosigs", 0) && i == nI - 1) ? SIGB : SIGA;
 		I[i].owner = (nThreads > 1 && i == nI - 1) ? 1 : 0;
 	}
 	if (sx_opt("permute", 0)) {
